@@ -588,16 +588,23 @@ class Names:
                 return None
         return None
 
+    def peer_of_addr(self, addr):
+        """'ip:8805' -> peer k ; 'ip:9805' -> alias peer k + 4 (the harness's second socket on peer k's address)"""
+        for port, off in ((":8805", 0), (":9805", 4)):
+            if addr.endswith(port):
+                p = self.peer_of_ip(addr[:-5])
+                return None if p is None else p + off
+        return None
+
     def key(self, k):
         i = k.rfind("-")
         try:
             addr, seq = k[:i], int(k[i + 1:])
         except ValueError:          # not "<address>-<decimal>": shows up as a key the model never holds
             return 999, 0
-        if addr.endswith(":8805"):
-            p = self.peer_of_ip(addr[:-5])
-            if p is not None:
-                return p, seq
+        p = self.peer_of_addr(addr)
+        if p is not None:
+            return p, seq
         return None, seq
 
     def objects(self, dump):
@@ -628,7 +635,7 @@ def c_dump(d, dp, names):
     nodes = []
     for n in (d["nodes"] or []):
         nid = names.peer_of_ip(n["id"])
-        addr = names.peer_of_ip(n["addr"][:-5]) if n["addr"].endswith(":8805") else None
+        addr = names.peer_of_addr(n["addr"])
         nodes.append("(%d, (%d, %d, %s))" % (names.obj[n["obj"]], 999 if nid is None else nid, 999 if addr is None else addr,
                                              clist([cN(x) for x in (n["sess"] or [])])))
     rnodes = []
